@@ -166,7 +166,7 @@ def ops_in_order(case):
 
 def correspond(ctx):
     rng = ctx['rng']
-    cases = [gen_case(rng) for _ in range(260 if ctx['thorough'] else 70)]
+    cases = corpus() + [gen_case(rng) for _ in range(260 if ctx['thorough'] else 70)]
     if not ctx['thorough']:
         for c in cases[26:]:
             c['route'] = 'api'            # the command-line route costs a subprocess per case
@@ -284,7 +284,21 @@ def oracle(case):
                 fails.append('--list-items after the operations shows %s=%s, the hand-edited file has %s=%s' % (d[0][0], d[0][1], d[1][0], d[1][1]))
     return fails
 
+def corpus():
+    """fixed histories that earlier seeded changes needed (kept so that they run on every search whatever the random stream does)"""
+    out = []
+    for k, route in ((1, 'cli'), (2, 'cli'), (3, 'api')):
+        g = random.Random(1400 + k); m = sc.gen_model(g)
+        items = [(s_, e) for s_, es in m['sections'] for e in es if s_[0] in ('Pair', 'Tabulation')]
+        s_, e = items[k % len(items)]
+        v1 = replacement_value(g, s_, e); v2 = e['val'] if e['val'] != v1 else 'as.zero' if s_[0] == 'Pair' else '9'
+        ovr = [['override', s_, e['key'], 0, v1], ['override', s_, e['key'], 0, v2], ['override', s_, e['key'], 0, v1]]      # V1, V2, V1: ends up with V1
+        adds = [['add', ('Other', 'Extra'), ('opt', 'twice'), 0, 'v1'], ['add', ('Other', 'Extra'), ('opt', 'twice'), 0, 'v1']] if k != 1 else []   # the same addition twice: refused
+        out.append({'model': m, 'ovr': ovr, 'adds': adds, 'route': route})
+    return out
+
 def search_cases(rng, n):
+    for c in corpus(): yield c
     for k in range(n // 6):
         c = gen_case(rng)
         if k % 3: c['route'] = 'api'          # the command-line route costs a subprocess per case: one case in three
